@@ -230,7 +230,7 @@ CHECKS = [
               "== model, recognition true exactly on model paths and False (not an error) elsewhere, occupied destinations refused, unrelated attributes kept",
           bounds=dict(quick="all sequences of 2 operations out of 14 operation instances, collection contents symbolic", thorough="all sequences of 3"),
           stubs=("E3 in-memory h5py model: links, Group.copy, file modes, refusal of truncating an open file; every explored path is replayed on real h5py",),
-          outside=("operations that would leave a dangling soft/external link are excluded",), timeout=3000, split_depth=2),
+          outside=("operations that would leave a dangling soft/external link are excluded",), timeout=3400, split_depth=4),
 ]
 
 MUTANTS = [
